@@ -174,7 +174,17 @@ def run_straightline(stmts, env: dict, stubs: dict | None = None, call_hook=None
 
 
 class _Leave(Exception):
-    pass
+    def __init__(self, how="leave"):
+        self.how = how
+
+
+def run_outcome(stmts, env: dict, stubs: dict | None = None) -> str:
+    """how one pass over the statements ends on concrete values: 'raise', 'return', 'continue', 'break' or 'fall'"""
+    try:
+        _run(stmts, env, stubs)
+    except _Leave as l:
+        return l.how
+    return "fall"
 
 
 def _unbind(node, env):
@@ -239,7 +249,7 @@ def _run(stmts, env, stubs):
                 except Exception:
                     env.pop(c.func.value.id, None)
         elif isinstance(st, (ast.Continue, ast.Break, ast.Return, ast.Raise)):
-            raise _Leave
+            raise _Leave(type(st).__name__.lower())
         elif isinstance(st, ast.Pass):
             pass
         else:
